@@ -108,6 +108,11 @@ fn main() {
 			let sys = IndSys::new(&format!("{name}/depth/tiny-units"), indicator_configs(Some(name), false), tiny[1..2].to_vec(), tiny.clone(), oracle, false);
 			h.go(&sys, &Limits::depth(if thorough { 5 } else { 4 }).wall_secs(600), true);
 			tally!(sys);
+			// (4b) and tiny units of volume alone (a lot of 2^-60 shares): zero-volume guards are guards for zero
+			let tv: Vec<yata::core::Candle> = ks.iter().map(|c| yata::core::Candle { volume: c.volume * sc, ..*c }).collect();
+			let sys = IndSys::new(&format!("{name}/depth/tiny-volume-units"), indicator_configs(Some(name), false), tv[1..2].to_vec(), tv.clone(), oracle, false);
+			h.go(&sys, &Limits::depth(if thorough { 5 } else { 4 }).wall_secs(600), true);
+			tally!(sys);
 		}
 		// (5) every float parameter at small / large values, long streams with sustained trends
 		{
@@ -147,11 +152,11 @@ fn main() {
 			let mut cfgs = vec![];
 			for (key, val) in ind::json_map(&c.to_json().unwrap()) {
 				let texts: Vec<String> = if val.is_u64() {
-					["7", "33", "120", "251", "254"].iter().map(|s| s.to_string()).collect()
+					["7", "33", "120", "251", "254", "255"].iter().map(|s| s.to_string()).collect()
 				} else if let Some(o) = val.as_object() {
 					let kind = o.keys().next().unwrap().clone();
 					let kind = if kind == "lin_reg" { "linreg".to_string() } else { kind };
-					["7", "33", "120", "254"].iter().map(|n| format!("{kind}-{n}")).collect()
+					["7", "33", "120", "254", "255"].iter().map(|n| format!("{kind}-{n}")).collect()
 				} else {
 					vec![]
 				};
